@@ -384,6 +384,12 @@ let () =
                 let allowed (en : entry) = (match xop with Plain (Retain f, _, _) -> not (f en.ek en.ev) | _ -> false) in
                 chk "panic_lost" (List.for_all allowed lost)
               end;
+              (* retain never reorders: whatever survives an interrupted retain is in its old relative order *)
+              (match xop with
+               | Plain (Retain _, _, _) ->
+                 let prek = List.map (fun (en : entry) -> s_of_n en.ek.ktok) pre.st.ents and postk = List.map (fun (en : entry) -> s_of_n en.ek.ktok) post.st.ents in
+                 chk "panic_order" (List.filter (fun k -> List.mem k postk) prek = postk)
+               | _ -> ());
               let optoks = (match xop with Plain (p, _, _) -> op_toks p | _ -> []) in
               let before = all_toks pre.st.ents @ optoks and after = all_toks post.st.ents @ post.dropped in
               let zs l = List.sort Z.compare (List.map z_of_n l) in
